@@ -12,6 +12,7 @@ edits which only change the *orientation* of a construct cannot change a verdict
   N5  statement-level logging / print / warnings.warn calls are dropped (trusted: they do not change state)
   N6  `x: T = v` -> `x = v`; a bare declaration `x: T` is dropped
   N7  a loop body ending in `if C: B` (no else) is written as the guard clause `if not C: continue` followed by B
+  N8  `if c: x = A else: x = B` -> `x = A if c else B`;  `x = D` directly followed by `if c: x = V` -> `x = V if c else D` (D a simple value)
 
 Line numbers are kept (reports still point at the source line); printed constructs show the normal form.
 `==` / `!=` between two non-constant operands keep their source order: `sa/pattern.py` matches them commutatively."""
@@ -93,9 +94,47 @@ def _guard_form(body):
     return out
 
 
+def _simple_value(e) -> bool:
+    return isinstance(e, (ast.Constant, ast.Name)) or (isinstance(e, ast.Attribute) and _simple_value(e.value)) \
+        or (isinstance(e, (ast.List, ast.Tuple, ast.Dict, ast.Set)) and not any(True for _ in ast.iter_child_nodes(e) if not isinstance(_, ast.expr_context)))
+
+
+def _one_assign(body):
+    """the single `name = value` statement of a branch, else None"""
+    if len(body) == 1 and isinstance(body[0], ast.Assign) and len(body[0].targets) == 1 and isinstance(body[0].targets[0], ast.Name):
+        return body[0]
+    return None
+
+
+def _merge_conditional_assignments(body):
+    """N8: `if c: x = A` / `else: x = B`  ->  `x = A if c else B`;   `x = D` directly followed by `if c: x = V`  ->  `x = V if c else D`"""
+    out = []
+    for st in body:
+        if isinstance(st, ast.If):
+            a = _one_assign(st.body)
+            b = _one_assign(st.orelse) if st.orelse else None
+            if a is not None and b is not None and a.targets[0].id == b.targets[0].id:
+                out.append(ast.copy_location(ast.Assign(targets=[ast.Name(id=a.targets[0].id, ctx=ast.Store())],
+                                                        value=ast.copy_location(ast.IfExp(test=st.test, body=a.value, orelse=b.value), st)), st))
+                continue
+            if a is not None and not st.orelse and out:
+                prev = out[-1]
+                if isinstance(prev, ast.Assign) and len(prev.targets) == 1 and isinstance(prev.targets[0], ast.Name) and prev.targets[0].id == a.targets[0].id \
+                        and _simple_value(prev.value) and a.targets[0].id not in {n.id for n in ast.walk(st.test) if isinstance(n, ast.Name)}:
+                    out[-1] = ast.copy_location(ast.Assign(targets=[ast.Name(id=a.targets[0].id, ctx=ast.Store())],
+                                                           value=ast.copy_location(ast.IfExp(test=st.test, body=a.value, orelse=prev.value), st)), prev)
+                    continue
+        out.append(st)
+    return out
+
+
 class Normalise(ast.NodeTransformer):
     def generic_visit(self, node):
         node = super().generic_visit(node)
+        for f in ("body", "orelse", "finalbody"):
+            lst = getattr(node, f, None)
+            if isinstance(lst, list) and lst and isinstance(lst[0], ast.stmt):
+                setattr(node, f, _merge_conditional_assignments(lst))
         for f in ("body", "orelse", "finalbody"):
             lst = getattr(node, f, None)
             if isinstance(lst, list) and f == "body" and not lst and isinstance(node, (ast.FunctionDef, ast.AsyncFunctionDef, ast.For, ast.AsyncFor, ast.While, ast.If,
